@@ -1,13 +1,19 @@
 #!/bin/sh
-# usage: tools/try_seed.sh <patch.diff> <property> [tier]   — apply a seeded change to /repo, run the check, undo it
+# usage: tools/try_seed.sh <patch.diff> <property> [tier]
+# Applies a seeded change to a scratch worktree of /repo (so concurrently running checks of /repo are not
+# disturbed), runs the check against it (VERIF_REPO), removes the worktree. Equivalent to
+# git -C /repo apply <patch>; ./check <property> <tier>; git -C /repo checkout -- .
 P="$1"; ID="$2"; TIER="${3:-quick}"
-cd /repo || exit 9
-if [ -n "$(git status --porcelain)" ]; then echo "repo not clean"; exit 9; fi
-if ! patch -p1 -s --fuzz=3 --no-backup-if-mismatch < "$P"; then echo "PATCH-DOES-NOT-APPLY $P"; git checkout -q -- .; git clean -fdq; exit 8; fi
-if ! go build ./... ; then echo "MUTANT-DOES-NOT-BUILD"; git checkout -q -- .; git clean -fdq; exit 7; fi
-cd /verif && ./check "$ID" "$TIER" > /tmp/try_seed.$$.log 2>&1; RC=$?
+export GOFLAGS=-mod=mod GOPROXY=off GOSUMDB=off GOTOOLCHAIN=local
+WT=/tmp/seedrepo-$$
+git -C /repo worktree add -q --detach $WT HEAD || exit 9
+cleanup() { git -C /repo worktree remove --force $WT; }
+cd $WT
+if ! patch -p1 -s --fuzz=3 --no-backup-if-mismatch < "$P"; then echo "PATCH-DOES-NOT-APPLY $P"; cleanup; exit 8; fi
+if ! go build ./... ; then echo "MUTANT-DOES-NOT-BUILD"; cleanup; exit 7; fi
+cd /verif && VERIF_REPO=$WT VERIF_EVIDENCE_DIR=/tmp/seedrepo-$$.evidence ./check "$ID" "$TIER" > /tmp/try_seed.$$.log 2>&1; RC=$?
 grep -E "^(VIOLATION|KNOWN-FINDING|INCONCLUSIVE)|done in" /tmp/try_seed.$$.log | cut -c1-220
 echo "exit=$RC"
-rm -f /tmp/try_seed.$$.log
-cd /repo && git checkout -q -- . && git clean -fdq
+rm -rf /tmp/try_seed.$$.log /tmp/seedrepo-$$.evidence
+cleanup
 exit $RC
